@@ -8,6 +8,7 @@ import (
 	"io"
 	"math/rand/v2"
 	"net"
+	"os"
 	"runtime"
 	"sync"
 	"sync/atomic"
@@ -227,7 +228,13 @@ func (e *env) connect(sc *Scenario, st *runState) (t xport, peer net.Conn, obs *
 	return nil, nil, nil, fmt.Errorf("unknown peer kind %q", sc.Peer)
 }
 
+var profile = os.Getenv("C11_PROFILE") != ""
+
 func (e *env) run(sc *Scenario) {
+	if profile { // development aid: where the wall time goes, per class
+		t0 := time.Now()
+		defer func() { e.rec.Count("us_"+sc.Kind+"_"+sc.Peer+"_"+sc.Class, time.Since(t0).Microseconds()) }()
+	}
 	st := &runState{}
 	done := make(chan struct{})
 	go func() {
@@ -718,10 +725,21 @@ func (e *env) runLib2Lib(sc *Scenario, st *runState) {
 	}
 	t2 := xport(nbt.NewNBTTransportFromConn(peer))
 	var valid [][]byte
+	firstOversize := -1 // number of valid payloads before the first oversize one
 	for _, p := range ps {
 		if len(p) <= refMaxPayload {
 			valid = append(valid, p)
+		} else if firstOversize < 0 {
+			firstOversize = len(valid)
 		}
+	}
+	// anything that goes wrong at or after the position of a refused oversize
+	// payload is that payload's octets having reached the wire
+	viol := func(i int, key, what string, cs any) {
+		if firstOversize >= 0 && i >= firstOversize {
+			key, what = "Send:oversize:wire-bytes", "after an oversize payload in the sequence: "+what
+		}
+		e.rec.Violation(sc.Idx, key, what, cs)
 	}
 	recvDone := make(chan struct{})
 	var rres []callResult
@@ -778,29 +796,33 @@ func (e *env) runLib2Lib(sc *Scenario, st *runState) {
 		cs := map[string]any{"scenario": sc, "call_index": i, "observed_receives": obsd()}
 		if i < len(valid) {
 			if res.err != nil {
-				e.rec.Violation(sc.Idx, "Send+Receive:error-on-complete-frame:"+lenClass(len(valid[i])),
+				viol(i, "Send+Receive:error-on-complete-frame:"+lenClass(len(valid[i])),
 					fmt.Sprintf("message %d (%d octets) sent by one transport: the receiving transport returned error %q", i, len(valid[i]), describeErr(res.err)), cs)
 				return
 			}
 			if !bytesEqual(res.data, valid[i]) {
-				e.rec.Violation(sc.Idx, fmt.Sprintf("Send+Receive:value:%s:%s", lenClass(len(valid[i])), cmpHow(res.data, valid[i])),
+				viol(i, fmt.Sprintf("Send+Receive:value:%s:%s", lenClass(len(valid[i])), cmpHow(res.data, valid[i])),
 					fmt.Sprintf("message %d of %d (0x%x) octets sent by one transport was received as %d octets (%s)", i, len(valid[i]), len(valid[i]), len(res.data), short(res.data)), cs)
 				return
 			}
 			continue
 		}
 		if res.err == nil {
-			e.rec.Violation(sc.Idx, "Send+Receive:eof:fabricated", fmt.Sprintf("after the sender closed, Receive returned (%s, nil)", short(res.data)), cs)
+			viol(i, "Send+Receive:eof:fabricated", fmt.Sprintf("after the sender closed, Receive returned (%s, nil)", short(res.data)), cs)
 			return
 		}
 		if len(res.data) != 0 {
-			e.rec.Violation(sc.Idx, "Send+Receive:eof:data-with-error", "data returned with the end-of-stream error", cs)
+			viol(i, "Send+Receive:eof:data-with-error", "data returned with the end-of-stream error", cs)
 			return
 		}
 	}
+	nvalid := 0
 	for i, res := range sres {
+		if len(ps[i]) <= refMaxPayload {
+			nvalid++
+		}
 		if len(ps[i]) <= refMaxPayload && res.err != nil {
-			e.rec.Violation(sc.Idx, "Send:error-on-valid:"+lenClass(len(ps[i])), fmt.Sprintf("Send of %d octets returned %q", len(ps[i]), describeErr(res.err)),
+			viol(nvalid-1, "Send:error-on-valid:"+lenClass(len(ps[i])), fmt.Sprintf("Send of %d octets returned %q", len(ps[i]), describeErr(res.err)),
 				map[string]any{"scenario": sc, "call_index": i})
 			return
 		}
